@@ -13,17 +13,28 @@ theorem mutex (acts : List Act) (s : St) (h : run init acts = some s)
     (i j : Nat) (w1 w2 : Work) (c1 c2 : Nat)
     (hi : s.workers[i]? = some (.running w1 c1)) (hj : s.workers[j]? = some (.running w2 c2))
     (hw : w1.wid = w2.wid) (hne : w1.wid ≠ 0) : i = j := by
-  sorry
+  have hI := Inv.reachable h
+  have hle : cntW w1.wid s.workers ≤ 1 := by have := hI.le _ hne; omega
+  exact index_unique_of_countP_le_one hle hi hj (by simp [isWS, wsWid]) (by simp [isWS, wsWid, hw])
 
 /-- the executable check used by the trace validator agrees -/
 theorem mutexOk_reachable (acts : List Act) (s : St) (h : run init acts = some s) : mutexOk s = true := by
-  sorry
+  have hI := Inv.reachable h
+  unfold mutexOk runningNow
+  exact decide_eq_true (nodup_runningWids fun g hg => by have := hI.le g hg; omega)
 
 /-- a group has at most one live work item (queued, or owned by a running worker), and a live
 item is registered in `rwork` — the invariant behind mutual exclusion -/
 theorem one_live_item (acts : List Act) (s : St) (h : run init acts = some s) (g : Nat) (hg : g ≠ 0) :
     cnt g s ≤ 1 ∧ (1 ≤ cnt g s → s.wq.isSome → g ∈ s.rwork) := by
-  sorry
+  have hI := Inv.reachable h
+  refine ⟨hI.le g hg, fun h1 hq => ?_⟩
+  obtain ⟨q, hq⟩ := Option.isSome_iff_exists.mp hq
+  have := (hI.core q hq).le g hg
+  refine ((hI.core q hq).mem g hg).mpr ?_
+  rw [cnt_eq, hq] at h1
+  simp only [Option.getD_some] at h1
+  omega
 
 /-! ## non-vacuity: two workers run different groups while a third item is queued -/
 example : ∃ s, run init [.serve 2, .subCheck 1 7 100 true, .subLock 1, .subSignal 1, .wStart 0,
